@@ -171,10 +171,19 @@ Section Stable.
   Proof.
     induction l as [|a t IH]; intros j i H.
     - destruct j; destruct i; simpl in H; discriminate.
-    - destruct j as [|j]; destruct i as [|i]; simpl in *; try discriminate; auto.
-      + split; auto.
-      + apply IH in H. destruct H. split; auto.
+    - destruct j as [|j]; destruct i as [|i]; simpl in *; try discriminate.
+      + split; [discriminate|assumption].
+      + split; [discriminate|assumption].
+      + apply IH in H. destruct H. split; [congruence|assumption].
   Qed.
+
+  (* close a branch whose call leaves the flight / the conflict handler: S is the (simplified) step equation *)
+  Ltac nf_side U := first [ eapply unwind_not_flight; exact U | eapply level_not_flight; exact U | intros; discriminate ].
+  Ltac leave_tac S I N :=
+    first [ match type of S with context [unwind ?a ?b] =>
+              let U := fresh "U" in destruct (unwind a b) as [? ?] eqn:U; inversion S; subst;
+              eapply inv_leave; [exact I | exact N | simpl; eapply unwind_not_flight; exact U] end
+          | inversion S; subst; eapply inv_leave; [exact I | exact N | simpl; intros; discriminate] ].
 
   Lemma inv_step : forall s lb s', Inv s -> stable ld s lb = true -> step nx s lb = Some s' -> Inv s'.
   Proof.
@@ -207,7 +216,7 @@ Section Stable.
                    split; [unfold cur; simpl; auto|exact Logic.I].
                 ** rewrite nth_error_set_nth_other in H by auto. destruct (ib _ _ _ H H0). split; auto; destruct pc; auto.
              ++ assert (X : forall k c0 pc0, k <> i -> nth_error (calls s) k = Some c0 -> ph c0 = PFlight pc0 -> False).
-                { intros k0 c0 pc0 _ N0 P0. destruct (ib _ _ _ N0 P0) as (A & _). eapply NB; eauto. congruence. }
+                { intros k0 cx pcx _ N0 P0. destruct (ib _ _ _ N0 P0) as (A & _). eapply NB; eauto. congruence. }
                 destruct (Nat.eq_dec k i) as [->|Hne]; destruct (Nat.eq_dec k' i) as [->|Hne']; auto.
                 ** rewrite nth_error_set_nth_other in H0 by auto. exfalso; eapply X; eauto.
                 ** rewrite nth_error_set_nth_other in H by auto. exfalso; eapply X; eauto.
@@ -217,12 +226,9 @@ Section Stable.
           eapply inv_leave; eauto. simpl. eapply unwind_not_flight; eauto.
       + (* PFlight *)
         destruct (IB _ I _ _ _ N P) as (CL & PF).
+        assert (CL' : hd 0 (stack c) = ld) by exact CL.
         destruct pc as [| |j].
         * (* FExists *)
-          assert (FIN : forall r s1, (let '(st, p) := level_result (stack c) r in
-                          Some (mkS (sreg s) (nodes s) (set_nth i (mkCall st p) (calls s)) (dws s))) = Some s1 -> Inv s1).
-          { intros r s1 H. destruct (level_result (stack c) r) as [st p] eqn:U. inversion H; subst.
-            eapply inv_leave; eauto. simpl. eapply level_not_flight; eauto. }
           assert (GO : (forall x, running (nodes s ld) x = false) ->
                        Inv (mkS (sreg s) (nodes s) (set_nth i (mkCall (stack c) (PFlight FStart)) (calls s)) (dws s))).
           { intros NRun. destruct I as [ia ib ic]. constructor; simpl; intros.
@@ -235,17 +241,17 @@ Section Stable.
               + rewrite nth_error_set_nth_other in H0 by auto. symmetry. eapply ic; eauto.
               + rewrite nth_error_set_nth_other in H by auto. eapply ic; eauto.
               + rewrite nth_error_set_nth_other in H, H0 by auto. eapply ic; eauto. }
-          destruct ok; simpl in S; [|eapply FIN; eauto].
-          destruct (r_exists sk (sreg s)); [eapply FIN; eauto|].
-          rewrite CL in S.
+          destruct ok; simpl in S; [|leave_tac S I N].
+          destruct (r_exists sk (sreg s)); [leave_tac S I N|].
+          try rewrite CL in S; try rewrite CL' in S.
           destruct (tree (nodes s ld)) as [j|] eqn:T.
-          -- destruct (running (nodes s ld) j) eqn:RJ; [eapply FIN; eauto|].
+          -- destruct (running (nodes s ld) j) eqn:RJ; [leave_tac S I N|].
              inversion S; subst. apply GO. intros x. destruct (running (nodes s ld) x) eqn:RX; auto.
              destruct (IA _ I _ _ RX) as (_ & A). rewrite T in A. inversion A; subst. congruence.
           -- inversion S; subst. apply GO. intros x. destruct (running (nodes s ld) x) eqn:RX; auto.
              destruct (IA _ I _ _ RX) as (_ & A). rewrite T in A. discriminate.
         * (* FStart: the instance starts *)
-          simpl in PF. rewrite CL in S. inversion S; subst; clear S.
+          simpl in PF. try rewrite CL in S; try rewrite CL' in S. inversion S; subst; clear S.
           destruct I as [ia ib ic]. constructor; simpl; intros.
           -- unfold upd_node in *. destruct (Nat.eqb_spec n ld) as [->|Hne].
              ++ split; auto. unfold running in H. simpl in H. apply running_app_true in H. destruct H as [(L & H)|H].
@@ -261,12 +267,11 @@ Section Stable.
              ++ rewrite nth_error_set_nth_other in H by auto. eapply ic; eauto.
              ++ rewrite nth_error_set_nth_other in H, H0 by auto. eapply ic; eauto.
         * (* FPublish *)
-          simpl in PF. rewrite CL in S.
-          assert (RB : forall r s1, (let '(st, p) := level_result (stack c) r in
-                          Some (mkS (sreg s) (upd_node (nodes s) ld (mkN (set_nth j false (insts (nodes s ld))) None))
-                                    (set_nth i (mkCall st p) (calls s)) (dws s ++ [(ld, true)]))) = Some s1 -> Inv s1).
-          { intros r s1 H. destruct (level_result (stack c) r) as [st p] eqn:U. inversion H; subst; clear H.
-            pose proof (level_not_flight _ _ _ _ U) as NF.
+          simpl in PF. try rewrite CL in S; try rewrite CL' in S.
+          assert (RB : forall st p, (forall pc, p <> PFlight pc) ->
+                    Inv (mkS (sreg s) (upd_node (nodes s) ld (mkN (set_nth j false (insts (nodes s ld))) None))
+                             (set_nth i (mkCall st p) (calls s)) (dws s ++ [(ld, true)]))).
+          { intros st p NF.
             destruct I as [ia ib ic]. constructor; simpl; intros.
             - unfold upd_node in *. destruct (Nat.eqb_spec n ld) as [->|Hne]; [|eauto].
               exfalso. unfold running in H. simpl in H. apply nth_set_nth_false in H. destruct H as (A & B).
@@ -277,25 +282,26 @@ Section Stable.
             - destruct (Nat.eq_dec k i) as [->|Hne].
               + rewrite (nth_error_set_nth_same _ _ _ _ _ N) in H. inversion H; subst. exfalso; eapply NF; eauto.
               + rewrite nth_error_set_nth_other in H by auto. exfalso. apply Hne. eapply ic; eauto. }
-          assert (OKP : forall r1 s1, (let '(st, p) := level_result (stack c) ROk in
-                          Some (mkS r1 (nodes s) (set_nth i (mkCall st p) (calls s)) (dws s))) = Some s1 -> Inv s1).
-          { intros r1 s1 H. destruct (level_result (stack c) ROk) as [st p] eqn:U. inversion H; subst.
-            eapply inv_leave; eauto. simpl. eapply level_not_flight; eauto. }
-          destruct ok; simpl in S; [|eapply RB; eauto].
+          assert (RBT : forall s1, (forall r, r = RErr \/ r = RExists ->
+                      (let '(st, p) := level_result (stack c) r in
+                       Some (mkS (sreg s) (upd_node (nodes s) ld (mkN (set_nth j false (insts (nodes s ld))) None))
+                                 (set_nth i (mkCall st p) (calls s)) (dws s ++ [(ld, true)]))) = Some s1 -> Inv s1)).
+          { intros s1 r _ H. destruct (level_result (stack c) r) as [st p] eqn:U. inversion H; subst. apply RB.
+            eapply level_not_flight; eauto. }
+          destruct ok; [|eapply (RBT s' RErr); auto].
+          simpl negb in S. cbv iota in S.
           destruct nx.
-          -- destruct (r_put_if_absent sk ld (sreg s)) as [r1 won]. destruct won; [eapply OKP; eauto|eapply RB; eauto].
-          -- eapply OKP; eauto.
+          -- destruct (r_put_if_absent sk ld (sreg s)) as [r1 won]. destruct won.
+             ++ leave_tac S I N.
+             ++ eapply (RBT s' RExists); auto.
+          -- leave_tac S I N.
       + (* PConflict *)
-        assert (FIN : forall r s1, (let '(st, p) := unwind (stack c) r in
-                        Some (mkS (sreg s) (nodes s) (set_nth i (mkCall st p) (calls s)) (dws s))) = Some s1 -> Inv s1).
-        { intros r s1 H. destruct (unwind (stack c) r) as [st p] eqn:U. inversion H; subst.
-          eapply inv_leave; eauto. simpl. eapply unwind_not_flight; eauto. }
-        destruct ok; simpl in S; [|eapply FIN; eauto].
-        destruct (r_get sk (sreg s)); eapply FIN; eauto.
+        destruct ok; simpl in S; [|leave_tac S I N].
+        destruct (r_get sk (sreg s)); leave_tac S I N.
     - (* Dw *)
       destruct (nth_error (dws s) k) as [[n b]|]; [|discriminate]. destruct b; [|discriminate].
-      inversion S; subst; clear S. destruct I as [ia ib ic]. constructor; simpl; intros; eauto.
-      destruct (ib _ _ _ H H0). split; auto; destruct pc; auto.
+      inversion S; subst; clear S. destruct I as [ia ib ic]. constructor; simpl; intros; eauto;
+        try (destruct (ib _ _ _ H H0); split; auto; destruct pc; auto).
   Qed.
 
   Lemma inv_run_g : forall ls s s', Inv s -> run_g nx ld s ls = Some s' -> Inv s'.
@@ -327,5 +333,5 @@ Example stable_example_runs :
   match run_g false 2 state0 stable_example with
   | Some s => (running_list 3 s, r_get sk (sreg s), map ph (calls s), dws s)
   | None => ([], None, [], [])
-  end = ([(2, 1)], None, [PDone ROk; PDone RErr; PDone ROk], [(2, false)]).
+  end = ([(2, 1)], Some 2, [PDone ROk; PDone RErr; PDone ROk], [(2, false)]).
 Proof. vm_compute. reflexivity. Qed.
